@@ -280,6 +280,46 @@ def case_width_frontier(seed, idx, res):
                                       index=idx, mode="width-frontier", width=width, functions=nf, verdicts=[r.exitcode for r in out.results], paths=[r.num_paths for r in out.results], warnings=ws[:4]))
 
 
+def case_invariant_own_loop(seed, idx, res):
+    """the loop that is cut is in the invariant function itself and depends on the target's state; one sevm runs the invariant over all
+    frontier states, and the state checked last does not cut the loop: the bound hit on an earlier state must still be reported"""
+    import invgen
+
+    rng = random.Random(f"c10-{seed}-invloop-{idx}")
+    L = rng.choice([1, 2, 3])
+    fns = [A.Fn("set", [("x", U)], A.arg(0) + [0, "SSTORE", "STOP"]), A.Fn("zclear", [], [0, 0, "SSTORE", "STOP"]),
+           A.Fn("n", [], [0, "SLOAD", 0, "MSTORE", 32, 0, "RETURN"], mutability="view", outputs=[U])]
+    if idx % 2:
+        fns[0], fns[1] = fns[1], fns[0]  # which state is visited last depends on the order of the target functions
+    target = A.ContractSpec("N", fns, filename="N.sol")
+    init = target.creation()
+    st = []
+    padded = init + bytes((-len(init)) % 32)
+    for i in range(0, len(padded), 32):
+        st += [("push", int.from_bytes(padded[i : i + 32], "big"), 32), 0x400 + i, "MSTORE"]
+    setup = A.Fn("setUp", [], st + [len(init), 0x400, 0, "CREATE", 0, "SSTORE", "STOP"])
+    view = A.call_raw(invgen.TARGET0, [f for f in fns if f.name == "n"][0].selector, ret=0x500) + ["POP", 0x500, "MLOAD"]
+    # k = target.n(); for (i = 0; i < k; i++); fails iff the loop ran exactly L + 1 times
+    inv = A.Fn("invariant_loop", [], view + [0, ":top", "DUP2", "DUP2", "LT", "ISZERO", "@done", "JUMPI", 1, "ADD", "@top", "JUMP", ":done", L + 1, "EQ", "@bad", "JUMPI", "STOP", ":bad"] + A.panic(1))
+    spec = A.ContractSpec(f"IL{idx}", [setup, inv], filename=f"IL{idx}.sol")
+    out = A.run(A.make_ctx(spec, funsigs=[inv.sig], overrides=dict(loop=L, invariant_depth=1), others=[target]))
+    res["counters"]["evaluations"] += 1
+    res["counters"]["invariant_own_loop_cases"] += 1
+    if out.exception or not out.results:
+        res["counters"]["invariant_own_loop_no_result"] += 1
+        return
+    r = out.results[0]
+    ws = out.warnings()
+    reported = [w for w in ws if "loop unrolling bound" in w or "incomplete" in w or "not been fully explored" in w] or (r.num_bounded_loops or 0)
+    res["distinct"].append(f"inv-own-loop:{idx}")
+    res["counters"]["invariant_cut_events_possible"] += 1
+    if reported:
+        res["counters"]["warnings_captured"] += 1
+    if r.exitcode == 0 and not reported:
+        res["violations"].append(dict(what="invariant test: clean PASS although the loop bound cut the invariant function on an earlier frontier state (set(L+1) breaks it)", key="silent-cut:invariant-own-loop",
+                                      index=idx, mode="inv-own-loop", loop=L, exitcode=r.exitcode, warnings=ws[:3], bounded=r.num_bounded_loops))
+
+
 def case_setup_stuck(seed, idx, res):
     """setUp() gets stuck (unsupported opcode) inside a nested call, or at top level: the state it has built so far is not the state after
     setUp.  A test that only passes on the truncated state must not be reported as a clean PASS."""
@@ -320,6 +360,8 @@ def worker(task):
             case_setup_stuck(seed, idx, res)
         elif kind == "widthfrontier":
             case_width_frontier(seed, idx, res)
+        elif kind == "invloop":
+            case_invariant_own_loop(seed, idx, res)
         else:
             case_two_contracts(seed, idx, res)
     return res
@@ -335,7 +377,7 @@ def main():
     if run.replay:
         w = json.load(open(run.replay))["witness"]
         res = new_result()
-        {"regular": case_regular, "invariant": case_invariant, "setup-loop": case_setup_loop, "setup-stuck": case_setup_stuck, "width-frontier": case_width_frontier}.get(w.get("mode"), case_two_contracts)(run.seed, w["index"], res)
+        {"regular": case_regular, "invariant": case_invariant, "setup-loop": case_setup_loop, "setup-stuck": case_setup_stuck, "width-frontier": case_width_frontier, "inv-own-loop": case_invariant_own_loop}.get(w.get("mode"), case_two_contracts)(run.seed, w["index"], res)
         run.merge(res)
         run.finish()
     tasks = []
@@ -347,6 +389,7 @@ def main():
     tasks += [("setup", i, i + 2, run.seed) for i in range(0, run.n(8, 100), 2)]
     tasks += [("setupstuck", i, i + 2, run.seed) for i in range(0, run.n(4, 20), 2)]
     tasks += [("widthfrontier", i, i + 2, run.seed) for i in range(0, run.n(4, 40), 2)]
+    tasks += [("invloop", i, i + 2, run.seed) for i in range(0, run.n(6, 60), 2)]
     run_pool(run, worker, tasks, soft_timeout=900)
     run.require("tests", 150)
     run.require("cut_events_possible", 30)
